@@ -3,6 +3,7 @@ from __future__ import annotations
 
 import concurrent.futures as cf
 import json
+import os
 import time
 
 from vlib import core
@@ -51,45 +52,78 @@ def sig_of(m: dict) -> dict:
     return sig
 
 
-def model_stage(work: core.Work, gname: str, kpath, tier: str, cov: dict, full: bool) -> tuple[list, list]:
-    """Diagnose the measured relations, then model-check with the classified deviations excused.
-    Returns (signatures of model-level mismatches, edges of the user phase)."""
+def diagnose(work: core.Work, gname: str, kpath, cov: dict) -> tuple[list, object]:
+    """TLC evaluates the design conditions and the outcome of save() after every single access and every
+    pair on the measured relations, and prints every deviation.  Returns their signatures and the constants
+    file for the later runs, in which the reported deviations are excused (each one is already reported here,
+    as known finding or as violation): the large runs then show that nothing ELSE goes wrong."""
     K = json.loads(kpath.read_text())
     K['excusedLumps'], K['excusedViews'] = [], []
     k0 = work.path(f'{gname}_diag.json')
     k0.write_text(json.dumps(K))
-    r = run_tlc('BspLazy', 'BspLazy_diag.cfg', workers=1, env={'BSPLAZY_CONST': k0}, timeout=300)
+    r = run_tlc('BspLazy', 'BspLazy_diag.cfg', workers=1, heap='2g', env={'BSPLAZY_CONST': k0}, timeout=300)
     core.require_mc(r, f'BspLazy_diag.cfg[{gname}]')
     if not any(isinstance(p, dict) and p.get('tag') == 'DIAGDONE' for p in r.prints):
         raise core.MachineryError(f'diagnosis of {gname} did not complete')
     diags = [p for p in r.prints if isinstance(p, dict) and p.get('tag') == 'DIAG']
-    sigs = []
-    for d in diags:
-        sigs.append({'kind': 'model', 'action': 'save', 'clause': d['clause'], 'item': d['item'], 'field': d.get('dep', ''),
-                     'group': gname, 'witness': d.get('witness'), 'files': K.get('files')})
-    known, _new = core.classify(PROP, sigs)
-    excused = [s for ss in known.values() for s in ss]
-    # every deviation is excused for the big run (each is already reported above, as known finding or violation);
-    # the run then shows that nothing ELSE goes wrong in the larger state space
+    sigs = [{'kind': 'model', 'action': 'save', 'clause': d['clause'], 'item': d['item'], 'field': d.get('dep', ''),
+             'group': gname, 'witness': d.get('witness')} for d in diags]
     K['excusedLumps'] = sorted({s['item'] for s in sigs if s['clause'] == 'model.lossless'})
     K['excusedViews'] = sorted({s['item'] for s in sigs if s['clause'] == 'model.cacheEmpty'})
     k1 = work.path(f'{gname}_mc.json')
     k1.write_text(json.dumps(K))
-    cfgs = ['BspLazy_mc.cfg'] if not full else ['BspLazy_all.cfg', 'BspLazy_full.cfg']
-    for cfg in cfgs:
-        r = run_tlc('BspLazy', cfg, env={'BSPLAZY_CONST': k1}, timeout=1500)
-        core.require_mc(r, f'{cfg}[{gname}]')
-        cov['models'][f'{cfg}[{gname}]'] = {'generated': r.generated, 'distinct': r.distinct, 'depth': r.depth}
-        cov['states'] += r.distinct
-        cov['transitions'] += r.generated
     cov['model_deviations'][gname] = [[d['clause'], d['item'], d.get('dep', '')] for d in diags]
-    cov['excused_in_mc'][gname] = {'lumps': K['excusedLumps'], 'views': K['excusedViews'], 'known': len(excused)}
+    cov['excused_in_mc'][gname] = {'lumps': K['excusedLumps'], 'views': K['excusedViews']}
     return sigs, k1
+
+
+def validate(rec_path, kpath, work: core.Work, shards: int = 16) -> tuple[list, dict]:
+    """Like core.validate_records, with the constants file of the group in the environment of every
+    TLC shard (so the groups can be validated concurrently)."""
+    with open(rec_path, encoding='utf-8') as f:
+        lines = [ln for ln in f if ln.strip()]
+    total = len(lines)
+    if total == 0:
+        raise core.MachineryError(f'no records to validate in {rec_path}')
+    shards = max(1, min(shards, (total + 99) // 100))
+    per = (total + shards - 1) // shards
+    jobs = []
+    for s in range(shards):
+        chunk = lines[s * per:(s + 1) * per]
+        if chunk:
+            p = work.path(f'{rec_path.stem}.shard{s}.ndjson')
+            p.write_text(''.join(chunk), encoding='utf-8')
+            jobs.append((s * per, p, len(chunk)))
+
+    def one(job):
+        base, p, n = job
+        return base, n, run_tlc('BspLazyTrace', 'BspLazyTrace.cfg', workers=1, heap='2g', timeout=1800,
+                                env={'TRACE_FILE': str(p), 'BSPLAZY_CONST': str(kpath)})
+    mism = []
+    stats = {'states': 0, 'transitions': 0, 'records': total}
+    with cf.ThreadPoolExecutor(max_workers=len(jobs)) as ex:
+        for base, n, res in ex.map(one, jobs):
+            if not res.ok:
+                raise core.MachineryError(f'record validation did not consume all records: {res.errors}\n{res.raw[-3000:]}')
+            if res.distinct != n + 1:
+                raise core.MachineryError(f'BspLazyTrace: expected {n + 1} states, TLC found {res.distinct}')
+            stats['states'] += res.distinct
+            stats['transitions'] += res.generated
+            for pr in res.prints:
+                if isinstance(pr, dict) and pr.get('tag') == 'MISMATCH':
+                    idx = base + pr['i'] - 1
+                    mism.append({'index': idx, 'rec': json.loads(lines[idx]), 'clause': pr.get('clause'), 'exp': pr.get('exp')})
+    mism.sort(key=lambda m: (m['index'], m['clause'], json.dumps(m['exp'], sort_keys=True)))
+    return mism, stats
 
 
 def run(tier: str, seed: int) -> int:
     t0 = time.time()
     work = core.Work()
+    marks = []
+
+    def mark(name: str) -> None:
+        marks.append((name, round(time.time() - t0, 1)))
     try:
         cov = {'states': 0, 'transitions': 0, 'models': {}, 'model_deviations': {}, 'excused_in_mc': {}}
         env = {'VERIF_SEED': seed, 'VERIF_TIER': tier}
@@ -99,25 +133,29 @@ def run(tier: str, seed: int) -> int:
         groups = man['groups']
         cov['files'] = st['files']
         cov['constant_groups'] = {g['name']: g['files'] for g in groups}
-        if st['files'] < 19 or not groups:
+        if st['files'] < 15 or not groups:
             raise core.MachineryError(f'prepare produced {st}')
         ref = groups[0]['name']     # the fully populated standard layouts
-        # 2. model stage (reference constants in the quick tier, every distinct constant set in the thorough tier)
+        mark('prepare')
+        # 2. diagnosis of the measured relations of every distinct constant set
         model_sigs = []
         kfiles = {}
+        pool = cf.ThreadPoolExecutor(max_workers=20)
+        for g, (sigs, k1) in zip(groups, pool.map(lambda g: diagnose(work, g['name'], work.path(g['name'] + '.json'), cov),
+                                                  groups)):
+            model_sigs += sigs
+            kfiles[g['name']] = k1
+        mark('diagnose')
+        # 3. concurrently: model checking, the transition graph of the user phase -> replay on the files
+        mc_jobs = []
         for g in groups:
-            kp = work.path(g['name'] + '.json')
-            if g['name'] == ref or tier == 'thorough':
-                sigs, k1 = model_stage(work, g['name'], kp, tier, cov, full=(tier == 'thorough' and g['name'] == ref))
-                model_sigs += sigs
-                kfiles[g['name']] = k1
+            if g['name'] == ref:
+                cfgs = ['BspLazy_mc.cfg'] if tier != 'thorough' else ['BspLazy_mc.cfg', 'BspLazy_all.cfg', 'BspLazy_full.cfg']
             else:
-                K = json.loads(kp.read_text())
-                K['excusedLumps'], K['excusedViews'] = [], []
-                k1 = work.path(g['name'] + '_trace.json')
-                k1.write_text(json.dumps(K))
-                kfiles[g['name']] = k1
-        # 3. the transition graph of the user phase (reference constants)
+                cfgs = ['BspLazy_mc.cfg'] if tier == 'thorough' else []
+            for cfg in cfgs:
+                mc_jobs.append((cfg, g['name'], pool.submit(run_tlc, 'BspLazy', cfg, env={'BSPLAZY_CONST': kfiles[g['name']]},
+                                                            workers=8, timeout=2400)))
         r = run_tlc('BspLazy', 'BspLazy_edges.cfg', workers=1, env={'BSPLAZY_CONST': kfiles[ref]}, timeout=900)
         core.require_mc(r, 'BspLazy_edges.cfg')
         edges = [p for p in r.prints if isinstance(p, dict) and p.get('tag') == 'EDGE']
@@ -132,18 +170,23 @@ def run(tier: str, seed: int) -> int:
             raise core.MachineryError(f'vacuous model: views never accessed: {accessed}')
         ef = work.path('edges.json')
         ef.write_text(json.dumps(edges))
-        # 4. replay on the files, one driver process per file
-        nfiles = len(man['files'])
-        outs = [work.path(f'run{n}.ndjson') for n in range(nfiles)]
+        mark('edges')
+        # 4. replay on the files, one driver process per (file, part)
+        njobs = sum(spec['parts'] for spec in man['files'])
+        outs = [work.path(f'run{n}.ndjson') for n in range(njobs)]
 
         def one(n: int) -> dict:
-            out = core.run_driver('c10_driver.py', ['run', work.dir, n, nfiles, ef, outs[n]], env=env, timeout=3000)
+            out = core.run_driver('c10_driver.py', ['run', work.dir, n, ef, outs[n]], env=env, timeout=3000)
             return json.loads(out.strip().splitlines()[-1])
         scen = 0
-        with cf.ThreadPoolExecutor(max_workers=16) as ex:
-            for stt in ex.map(one, range(nfiles)):
-                scen += stt['scenarios']
+        seen_files = set()
+        for stt in pool.map(one, range(njobs)):
+            scen += stt['scenarios']
+            seen_files.add(stt['file'])
+        if len(seen_files) != st['files']:
+            raise core.MachineryError(f'files without scenarios: {st["files"] - len(seen_files)}')
         cov['scenarios'] = scen
+        mark('replay')
         # 5. TLC validates every record against the constants measured on its own file
         by_group: dict = {g['name']: [] for g in groups}
         samples = []
@@ -162,8 +205,7 @@ def run(tier: str, seed: int) -> int:
         for need in ('none', 'single', 'pair', 'state', 'walk'):
             if not srcs.get(need):
                 raise core.MachineryError(f'no scenario of kind {need} was executed')
-        allm = []
-        total = 0
+        vjobs = []
         for gname, recs in by_group.items():
             if not recs:
                 raise core.MachineryError(f'no scenario for constant group {gname}')
@@ -171,11 +213,25 @@ def run(tier: str, seed: int) -> int:
             with open(rp, 'w') as f:
                 for rec in recs:
                     f.write(json.dumps(rec, separators=(',', ':')) + '\n')
-            mism, stv = validate_with_env(rp, kfiles[gname], work)
+            vjobs.append(pool.submit(validate, rp, kfiles[gname], work))
+        allm = []
+        total = 0
+        for fut in vjobs:
+            mism, stv = fut.result()
             allm += mism
             total += stv['records']
             cov['states'] += stv['states']
             cov['transitions'] += stv['transitions']
+        mark('validate')
+        for cfg, gname, fut in mc_jobs:
+            r = fut.result()
+            core.require_mc(r, f'{cfg}[{gname}]')
+            cov['models'][f'{cfg}[{gname}]'] = {'generated': r.generated, 'distinct': r.distinct, 'depth': r.depth}
+            cov['states'] += r.distinct
+            cov['transitions'] += r.generated
+        pool.shutdown()
+        mark('mc')
+        cov['stage_s'] = marks
         cov['traces_validated_against_impl'] = total
         cov['records_validated'] = total
         cov['scenario_kinds'] = srcs
@@ -187,24 +243,16 @@ def run(tier: str, seed: int) -> int:
                        'shortest paths into distinct cache states (all 5440 per uncompressed synthesised file in the thorough '
                        'tier) and seeded walks, on every layout x compression')
         sigs = model_sigs + [sig_of(m) for m in allm]
+        dump = os.environ.get('C10_DUMP')
+        if dump:
+            with open(dump, 'w') as f:
+                json.dump([{k: v for k, v in s.items() if k != 'record'} | {'acc': s.get('record', {}).get('acc'),
+                                                                            'file': s.get('record', {}).get('file')}
+                           for s in sigs], f)
         known, new = core.classify(PROP, sigs)
         return core.finish(PROP, tier=tier, seed=seed, t0=t0, coverage=cov, known=known, new=new, assumptions=ASSUMPTIONS)
     finally:
         work.cleanup()
-
-
-def validate_with_env(rec_path, kpath, work: core.Work, shards: int = 16) -> tuple[list, dict]:
-    """core.validate_records with the constants file in the environment of every TLC shard."""
-    import os
-    old = os.environ.get('BSPLAZY_CONST')
-    os.environ['BSPLAZY_CONST'] = str(kpath)
-    try:
-        return core.validate_records('BspLazyTrace', 'BspLazyTrace.cfg', rec_path, work=work, shards=shards)
-    finally:
-        if old is None:
-            os.environ.pop('BSPLAZY_CONST', None)
-        else:
-            os.environ['BSPLAZY_CONST'] = old
 
 
 def replay(path: str) -> int:
@@ -221,7 +269,7 @@ def replay(path: str) -> int:
         K['excusedLumps'], K['excusedViews'] = [], []
         kp = work.path('Kx.json')
         kp.write_text(json.dumps(K))
-        mism, _ = validate_with_env(out, kp, work, shards=1)
+        mism, _ = validate(out, kp, work, shards=1)
         known, new = core.classify(PROP, [sig_of(m) for m in mism])
         for s in new:
             print(f'VIOLATION property={PROP} replay={path} clause={s["clause"]} item={s["item"]} field={s["field"]}')
